@@ -57,7 +57,7 @@ PROFILES = {
     'C09': dict(weights=_w(apply=12, ite=4, fop=4, quant=5, let=6, cube=3,
                            var=6, find_or_add=2, add_expr=4, drop=5, gc=1,
                            swap=0, reorder=0, pairs=0, configure=1, arm=14,
-                           knobs=1, copy=3, load=1, dump=1, image=5),
+                           knobs=1, copy=3, load=1, dump=1, image=5, support=3, count=1, pick=1, to_expr=1, sizes=1),
                 flavors=['raw', 'autoref'], nv=(3, 9), steps=(20, 120),
                 dyn=True, m1_rate=0.1),
     'C10': dict(weights=_w(support=8, count=8, pick=10, apply=8, gc=1, swap=3, reorder=1),
